@@ -1,5 +1,6 @@
 import SrProofs.Spring
 import SrProofs.SpringUnique
+import SrProofs.SpringMonotone
 
 /-!
 # C04 — the receiver spring system is in equilibrium for every connection option
@@ -16,11 +17,18 @@ The assembly theorem is over an arbitrary commutative ring.
 Not proved here (stated so that nothing is weakened silently):
 * the order in which networkx reports edges/components is not modelled; that the result of
   `reduce_graph` does not depend on it is established by the exact correspondence only;
-* the real tubes are nonlinear (1-D FEM) springs: uniqueness of the zero of the residual is proved for
-  linear springs of positive stiffness only (`equilibrium_unique`, `solvable_equilibrium_unique`,
+* the real tubes are nonlinear (1-D FEM) springs.  Uniqueness of the zero of the residual is proved for
+  linear springs of positive stiffness (`equilibrium_unique`, `solvable_equilibrium_unique`,
   `receiver_equilibrium_unique`; with `assembly_linear` the residual of `RJ` *is* `K d - f`, so its unique
-  zero is the direct-stiffness solution); for the real tubes the harness compares the displacements with
-  an independent direct-stiffness solve;
+  zero is the direct-stiffness solution) and for arbitrary spring laws whose force is strictly increasing in
+  the handed displacement (`monotone_energy`, `monotone_equilibrium_unique`,
+  `receiver_monotone_equilibrium_unique`, on the model's general-law assembly `assembleF`/`fjF`), in particular
+  (`positive_tangent_unique`, over `ℝ`) for laws whose reported tangent is the derivative of the force and is
+  positive.  What is *not* proved: that a real tube is such a law — that the 1-D FEM tube returns a force that
+  is a differentiable function of the handed displacement alone, whose derivative is the reported tangent (C11;
+  it is not for split inelastic steps, finding F30) and is positive (C11 `stiffness_pos`, under the hypothesis
+  that the material tangent is symmetric positive definite); nor *existence* of the equilibrium for nonlinear
+  laws.  For the real tubes the harness compares the displacements with an independent direct-stiffness solve;
 * Newton convergence (C17) and IEEE rounding.
 -/
 namespace SrProps.C04
@@ -247,6 +255,129 @@ theorem receiver_equilibrium_unique {F : Type} [Field F] [LinearOrder F] [IsStri
   exact solvable_equilibrium_unique _ (hT.comp_valid hr hl hcl hkeep) (hT.comp_nodes_nodup r')
     (fun e he => hT.comp_ends he) (fun b hb => hT.comp_bcs_nodes hb) k hk ubc f d d' hd hd' hf hf'
 
+/-- **monotone_energy.** General (nonlinear) spring laws, the model's own assembly: `lawEdges l` lists the edges
+`(dof i, dof j, law)` as the `DEdge`s that `assembleF` (`Fint` of `RJ`) sums over, `law : δ ↦ (force, tangent)`,
+and the law of an edge is handed `δ_e = fjDisp d i j`, i.e. `d(smaller dof) − d(larger dof)` whichever way the
+edge is listed (last conjunct; `fjDisp_orient`).  For two fields `d`, `d'`:
+`Σ_r (d_r − d'_r)(F_int(d)_r − F_int(d')_r) = Σ_e (F_e(δ_e) − F_e(δ'_e))(δ_e − δ'_e)`; if the force of every edge is
+strictly increasing, every summand is `≥ 0` and vanishes iff `δ_e = δ'_e`. -/
+theorem monotone_energy {F : Type} [Field F] [LinearOrder F] [IsStrictOrderedRing F]
+    (l : List (Nat × Nat × Law F)) (hmono : ∀ s ∈ l, StrictMono (fun δ => (s.2.2 δ).1))
+    (d d' : Nat → F) (n : Nat) (hn : ∀ s ∈ l, s.1 < n ∧ s.2.1 < n) :
+    (Finset.range n).sum
+        (fun r => (d r - d' r) * (assembleF (lawEdges l) d r - assembleF (lawEdges l) d' r)) =
+      (l.map (fun s => ((s.2.2 (fjDisp d s.1 s.2.1)).1 - (s.2.2 (fjDisp d' s.1 s.2.1)).1) *
+        (fjDisp d s.1 s.2.1 - fjDisp d' s.1 s.2.1))).sum ∧
+    (∀ s ∈ l,
+      0 ≤ ((s.2.2 (fjDisp d s.1 s.2.1)).1 - (s.2.2 (fjDisp d' s.1 s.2.1)).1) *
+        (fjDisp d s.1 s.2.1 - fjDisp d' s.1 s.2.1) ∧
+      (((s.2.2 (fjDisp d s.1 s.2.1)).1 - (s.2.2 (fjDisp d' s.1 s.2.1)).1) *
+        (fjDisp d s.1 s.2.1 - fjDisp d' s.1 s.2.1) = 0 ↔ fjDisp d s.1 s.2.1 = fjDisp d' s.1 s.2.1)) ∧
+    (∀ ii jj, ii < jj → fjDisp d ii jj = d ii - d jj ∧ fjDisp d jj ii = d ii - d jj) :=
+  ⟨monotone_energy_identity l d d' n hn,
+    fun s hs => ⟨strictMono_mul_nonneg (hmono s hs) _ _, strictMono_mul_eq_zero_iff (hmono s hs) _ _⟩,
+    fun ii jj h => ⟨fjDisp_lt d h, by rw [fjDisp_symm]; exact fjDisp_lt d h⟩⟩
+
+/-- the linear springs of `equilibrium_unique` are the laws `linearLaw k`, and `linearLaw k` is strictly
+increasing exactly when it is used with `0 < k`: the theorems below contain the linear ones -/
+theorem linear_is_monotone {F : Type} [Field F] [LinearOrder F] [IsStrictOrderedRing F]
+    (l : List (Nat × Nat × F)) :
+    linEdges l = lawEdges (l.map (fun e => (e.1, e.2.1, linearLaw e.2.2))) ∧
+    ∀ k : F, 0 < k → StrictMono (fun δ => (linearLaw k δ).1) :=
+  ⟨linEdges_eq_lawEdges l, fun _ hk _ _ hab => mul_lt_mul_of_pos_left hab hk⟩
+
+/-- **monotone_equilibrium_unique.** Springs with arbitrary strictly increasing force laws over a linearly
+ordered field, dofs below `n`, `B` the dofs with a displacement BC.  If every spring end is joined to a BC dof
+by a chain of springs (`Reach`), two displacement fields that agree on the BC dofs and have the same assembled
+internal force on every free row (both are zeros of the residual `F_int[free] - forces` of `RJ` for the same
+external forces) coincide on every spring end: the zero of the nonlinear residual is unique. -/
+theorem monotone_equilibrium_unique {F : Type} [Field F] [LinearOrder F] [IsStrictOrderedRing F]
+    (l : List (Nat × Nat × Law F)) (hmono : ∀ s ∈ l, StrictMono (fun δ => (s.2.2 δ).1)) (n : Nat)
+    (hn : ∀ s ∈ l, s.1 < n ∧ s.2.1 < n) (B : Nat → Prop) (d d' : Nat → F)
+    (hB : ∀ r, r < n → B r → d r = d' r)
+    (hbal : ∀ r, r < n → ¬ B r → assembleF (lawEdges l) d r = assembleF (lawEdges l) d' r)
+    (hreach : ∀ r, IsEnd l r → Reach l B r) :
+    ∀ r, IsEnd l r → d r = d' r := by
+  intro r hr
+  have hlt : r < n := by
+    obtain ⟨s, hs, h | h⟩ := hr
+    · exact h ▸ (hn s hs).1
+    · exact h ▸ (hn s hs).2
+  exact monotone_unique_of_reach l hmono n hn B d d' hB hbal r hlt (hreach r hr)
+
+/-- **solvable_monotone_equilibrium_unique.** `solvable_equilibrium_unique` with an arbitrary strictly
+increasing force law `law e` on every edge (`netSprings c law` lists the edges as `(dof i, dof j, law e)`). -/
+theorem solvable_monotone_equilibrium_unique {F : Type} [Field F] [LinearOrder F] [IsStrictOrderedRing F]
+    (c : Net) (hv : validateSolve c = .ok ()) (hnd : c.nodes.Nodup)
+    (hends : ∀ e ∈ c.edges, e.i ∈ c.nodes ∧ e.j ∈ c.nodes) (hb : ∀ b ∈ c.bcs, b ∈ c.nodes)
+    (law : Edge → Law F) (hmono : ∀ e ∈ c.edges, StrictMono (fun δ => (law e δ).1))
+    (ubc f : Nat → F) (d d' : Nat → F)
+    (hd : ∀ b ∈ c.bcs, d ((dofMaps c).1 b) = ubc b) (hd' : ∀ b ∈ c.bcs, d' ((dofMaps c).1 b) = ubc b)
+    (hf : ∀ m ∈ (dofMaps c).2.1, assembleF (lawEdges (netSprings c law)) d ((dofMaps c).1 m) = f m)
+    (hf' : ∀ m ∈ (dofMaps c).2.1, assembleF (lawEdges (netSprings c law)) d' ((dofMaps c).1 m) = f m) :
+    ∀ m ∈ c.nodes, d ((dofMaps c).1 m) = d' ((dofMaps c).1 m) := by
+  have hfree : ∀ m ∈ c.nodes, m ∉ c.bcs → m ∈ (dofMaps c).2.1 := by
+    intro m hm hnb
+    show m ∈ c.nodes.filter (fun n => !c.bcs.contains n)
+    rw [List.mem_filter]
+    exact ⟨hm, by simpa using hnb⟩
+  exact net_monotone_unique hv hnd hends hb law hmono ubc f d d' hd hd'
+    (fun m hm hnb => hf m (hfree m hm hnb)) (fun m hm hnb => hf' m (hfree m hm hnb))
+
+/-- **receiver_monotone_equilibrium_unique.** For every receiver option, every list of panels, every component
+returned by `reduce_graph` and every assignment of spring laws with strictly increasing force to its edges
+(connection springs and the nonlinear tubes): two displacement fields that satisfy the displacement BCs and
+balance every free node with the same external forces coincide on the whole component. -/
+theorem receiver_monotone_equilibrium_unique {F : Type} [Field F] [LinearOrder F] [IsStrictOrderedRing F]
+    (r : Opt) (ps : List (Opt × Nat)) (comps : List Net)
+    (h : reduce (buildNetwork r ps) = .ok comps) (c : Net) (hc : c ∈ comps)
+    (law : Edge → Law F) (hmono : ∀ e ∈ c.edges, StrictMono (fun δ => (law e δ).1))
+    (ubc f : Nat → F) (d d' : Nat → F)
+    (hd : ∀ b ∈ c.bcs, d ((dofMaps c).1 b) = ubc b) (hd' : ∀ b ∈ c.bcs, d' ((dofMaps c).1 b) = ubc b)
+    (hf : ∀ m ∈ (dofMaps c).2.1, assembleF (lawEdges (netSprings c law)) d ((dofMaps c).1 m) = f m)
+    (hf' : ∀ m ∈ (dofMaps c).2.1, assembleF (lawEdges (netSprings c law)) d' ((dofMaps c).1 m) = f m) :
+    ∀ m ∈ c.nodes, d ((dofMaps c).1 m) = d' ((dofMaps c).1 m) := by
+  have hT := buildNetwork_treeNet r ps
+  rw [hT.reduce_eq] at h
+  cases h
+  obtain ⟨r', hr, hl, hcl, rfl, hkeep⟩ := mem_components.1 hc
+  exact solvable_monotone_equilibrium_unique _ (hT.comp_valid hr hl hcl hkeep) (hT.comp_nodes_nodup r')
+    (fun e he => hT.comp_ends he) (fun b hb => hT.comp_bcs_nodes hb) law hmono ubc f d d' hd hd' hf hf'
+
+/-- **positive_tangent_unique.** The bridge from C11 to C04, over `ℝ`.  A spring law `δ ↦ (force, tangent)`
+whose reported tangent is the derivative of its force (C11: the reported stiffness is the derivative) and is
+positive at every displacement (C11 `stiffness_pos`) has a strictly increasing force; hence
+`monotone_equilibrium_unique` applies to any list of such springs … -/
+theorem positive_tangent_unique
+    (l : List (Nat × Nat × Law ℝ))
+    (hderiv : ∀ s ∈ l, ∀ δ, HasDerivAt (fun x => (s.2.2 x).1) (s.2.2 δ).2 δ)
+    (hpos : ∀ s ∈ l, ∀ δ, 0 < (s.2.2 δ).2) (n : Nat)
+    (hn : ∀ s ∈ l, s.1 < n ∧ s.2.1 < n) (B : Nat → Prop) (d d' : Nat → ℝ)
+    (hB : ∀ r, r < n → B r → d r = d' r)
+    (hbal : ∀ r, r < n → ¬ B r → assembleF (lawEdges l) d r = assembleF (lawEdges l) d' r)
+    (hreach : ∀ r, IsEnd l r → Reach l B r) :
+    (∀ s ∈ l, StrictMono (fun δ => (s.2.2 δ).1)) ∧ ∀ r, IsEnd l r → d r = d' r :=
+  have hmono : ∀ s ∈ l, StrictMono (fun δ => (s.2.2 δ).1) :=
+    fun s hs => law_strictMono_of_tangent_pos s.2.2 (hderiv s hs) (hpos s hs)
+  ⟨hmono, monotone_equilibrium_unique l hmono n hn B d d' hB hbal hreach⟩
+
+/-- … and `receiver_monotone_equilibrium_unique` to every component of every receiver: if every edge (tube or
+connection spring) reports a tangent that is the derivative of its force and is positive, the equilibrium of
+the component is unique. -/
+theorem receiver_positive_tangent_unique
+    (r : Opt) (ps : List (Opt × Nat)) (comps : List Net)
+    (h : reduce (buildNetwork r ps) = .ok comps) (c : Net) (hc : c ∈ comps)
+    (law : Edge → Law ℝ)
+    (hderiv : ∀ e ∈ c.edges, ∀ δ, HasDerivAt (fun x => (law e x).1) (law e δ).2 δ)
+    (hpos : ∀ e ∈ c.edges, ∀ δ, 0 < (law e δ).2)
+    (ubc f : Nat → ℝ) (d d' : Nat → ℝ)
+    (hd : ∀ b ∈ c.bcs, d ((dofMaps c).1 b) = ubc b) (hd' : ∀ b ∈ c.bcs, d' ((dofMaps c).1 b) = ubc b)
+    (hf : ∀ m ∈ (dofMaps c).2.1, assembleF (lawEdges (netSprings c law)) d ((dofMaps c).1 m) = f m)
+    (hf' : ∀ m ∈ (dofMaps c).2.1, assembleF (lawEdges (netSprings c law)) d' ((dofMaps c).1 m) = f m) :
+    ∀ m ∈ c.nodes, d ((dofMaps c).1 m) = d' ((dofMaps c).1 m) :=
+  receiver_monotone_equilibrium_unique r ps comps h c hc law
+    (fun e he => law_strictMono_of_tangent_pos (law e) (hderiv e he) (hpos e he)) ubc f d d' hd hd' hf hf'
+
 /-! ### non-vacuity -/
 
 /-- receiver spring, one disconnected panel (1 tube), one rigid panel (2 tubes): the disconnected
@@ -314,6 +445,50 @@ example (d' : Nat → ℚ) (h0 : d' 0 = 0)
 example : netSprings ⟨[0, 1, 4, 6, 8], [⟨0, 1, .conn (.stiff 100)⟩, ⟨0, 4, .conn (.stiff 100)⟩,
       ⟨4, 6, .tube 1⟩, ⟨4, 8, .tube 2⟩], [6, 8]⟩ (fun _ => (1 : Int)) =
     [(0, 1, 1), (0, 2, 1), (2, 3, 1), (2, 4, 1)] := by decide
+
+/-- two nonlinear springs `F δ = δ + δ³` in series (dofs 0–1 and 1–2), dof 0 pinned at 0, no load on dof 1 and
+a load of 2 on dof 2: the only equilibrium is `d = (0, 1, 2)` (each spring is handed `δ = −1`, `F(−1) = −2`) -/
+example (d' : Nat → ℚ) (h0 : d' 0 = 0)
+    (h1 : assembleF (lawEdges [(0, 1, (cubicLaw : Law ℚ)), (1, 2, cubicLaw)]) d' 1 = 0)
+    (h2 : assembleF (lawEdges [(0, 1, (cubicLaw : Law ℚ)), (1, 2, cubicLaw)]) d' 2 = 2) :
+    d' 1 = 1 ∧ d' 2 = 2 := by
+  have hm1 : ((0, 1, cubicLaw) : Nat × Nat × Law ℚ) ∈ [(0, 1, (cubicLaw : Law ℚ)), (1, 2, cubicLaw)] := by simp
+  have hm2 : ((1, 2, cubicLaw) : Nat × Nat × Law ℚ) ∈ [(0, 1, (cubicLaw : Law ℚ)), (1, 2, cubicLaw)] := by simp
+  have hr0 : Reach [(0, 1, (cubicLaw : Law ℚ)), (1, 2, cubicLaw)] (fun r => r = 0) 0 := Reach.base rfl
+  have hr1 := Reach.step hm1 hr0
+  have hr2 := Reach.step hm2 hr1
+  have key := monotone_equilibrium_unique [(0, 1, (cubicLaw : Law ℚ)), (1, 2, cubicLaw)]
+    (by
+      intro s hs
+      simp only [List.mem_cons, List.not_mem_nil, or_false] at hs
+      rcases hs with rfl | rfl <;> exact cubicLaw_strictMono)
+    3 (by simp)
+    (fun r => r = 0) (fun i => if i = 0 then 0 else if i = 1 then 1 else 2) d'
+    (by intro r _ hr; subst hr; simp [h0])
+    (by
+      intro r hr hne
+      have : r = 1 ∨ r = 2 := by omega
+      rcases this with rfl | rfl
+      · rw [h1]; norm_num [lawEdges, assembleF, fjF, fjDisp, sgn, cubicLaw]
+      · rw [h2]; norm_num [lawEdges, assembleF, fjF, fjDisp, sgn, cubicLaw])
+    (by
+      rintro r ⟨s, hs, h⟩
+      simp only [List.mem_cons, List.not_mem_nil, or_false] at hs
+      rcases hs with rfl | rfl <;> rcases h with rfl | rfl <;> assumption)
+  have k1 := key 1 ⟨_, hm1, Or.inr rfl⟩
+  have k2 := key 2 ⟨_, hm2, Or.inr rfl⟩
+  simp at k1 k2
+  exact ⟨k1.symm, k2.symm⟩
+
+/-- the hypotheses of `positive_tangent_unique` are satisfiable: over `ℝ` the reported tangent `1 + 3δ²` of
+`cubicLaw` is the derivative of its force and is positive -/
+example : (∀ δ : ℝ, HasDerivAt (fun x => ((cubicLaw : Law ℝ) x).1) ((cubicLaw : Law ℝ) δ).2 δ) ∧
+    ∀ δ : ℝ, 0 < ((cubicLaw : Law ℝ) δ).2 := by
+  refine ⟨fun δ => ?_, fun δ => ?_⟩
+  · have h := (hasDerivAt_id δ).add (((hasDerivAt_id δ).mul (hasDerivAt_id δ)).mul (hasDerivAt_id δ))
+    exact h.congr_deriv (by simp only [Pi.mul_apply, id]; show _ = (1 : ℝ) + 3 * (δ * δ); ring)
+  · show (0 : ℝ) < 1 + 3 * (δ * δ)
+    nlinarith [mul_self_nonneg δ]
 
 /-- **F16 (pinned commit).** With the final filter of `split_disconnect` as coded at the pinned
 commit the floating group of connection springs is returned … -/
